@@ -100,6 +100,16 @@ def guards(ev):
     return out
 
 
+def call_value(tr, callev):
+    """Value returned by the inlined call `callev` (the matching exit event: same callee, one frame deeper than the call site)."""
+    fi = callev.d.get("fi")
+    depth = len(callev.stack) + 1
+    for x in tr.events[callev.seq:]:
+        if x.kind == "exit" and x.d.get("fi") is fi and len(x.stack) == depth:
+            return x.d.get("value")
+    return None
+
+
 def guards_in(ev, qualname):
     """Conjuncts of the dominating conditions that were tested inside function `qualname` (callers' guards left out)."""
     out = []
